@@ -223,7 +223,23 @@ def run(ctx, prog, res):
                 if re.search(r"Vec::<T(, A)?>::(swap_remove|push|insert|append|extend\w*)$|<impl \[T\]>::(swap|reverse|rotate\w*)$", flow.call_name(t)) and "opening_hours::schedule::TimeRange" in (t["callee"].get("path_args") or "")]
     r7.check(not disorder, {"fn": fr.id, "after_sorting": "only order-preserving removals"}, "C14.R7:from_ranges:order",
              "from_ranges applies %s to the sorted ranges: the merge loop relies on the order by start" % disorder, lib.where_of(fr))
-    r7.floor(6)
+    # ... and that order is established on every path: the sort (by start) is not skipped under a condition of the
+    # data, other than an `is_sorted*` test of the same vector (a condition on anything else - ends, lengths, kinds -
+    # lets some unsorted input through to a loop that only ever extends the current range)
+    sorts = [bb for bb, t in fr.calls() if re.search(r"<impl \[T\]>::sort\w*$", flow.call_name(t))]
+    removes = [bb for bb, t in fr.calls() if re.search(r"Vec::<T(, A)?>::remove$", flow.call_name(t))]
+    rets_fr = flow.return_blocks(fr)
+    if not sorts:
+        r7.anchor_missing("the sort of from_ranges")
+    else:
+        skipping = flow.reach_avoiding(fr, 0, removes or rets_fr, sorts)
+        excused = False
+        if skipping:
+            tests = [flow.call_name(t) for x in prog.with_closures(fr.id) for _, t in prog.fns[x].calls() if re.search(r"::is_sorted\w*$", flow.call_name(t))]
+            excused = bool(tests)
+        r7.check(not skipping or excused, {"fn": fr.id, "sort_by_start": "on every path to the merge loop"}, "C14.R7:from_ranges:sort-skipped",
+                 "from_ranges can reach its merge loop without having sorted the ranges by start (the sort is conditional): ranges given in decreasing start order that pass the condition lose what lies before the first-listed start", lib.where_of(fr))
+    r7.floor(7)
 
     # W --------------------------------------------------------------------------------------
     # R8 -------------------------------------------------------------------------------------
@@ -262,6 +278,7 @@ def run(ctx, prog, res):
     # R10 ------------------------------------------------------------------------------------
     r10 = res.rule("C14.R10", "the inserted range wins against *every* earlier period it meets: each vector `insert` collects from the receiver's periods comes through an element-wise stage (map / filter_map) whose closure cuts the period against the inserted range - `end <- min(end, inserted.start)` for the periods kept before it, `start <- max(start, inserted.end)` for those kept after it - so no period reaches the result uncut; both cuts exist")
     cuts_seen = set()
+    nonempty = {}
     n_coll = 0
     for bb, t in ins.calls():
         if not (flow.call_name(t) or "").endswith("Iterator::collect"):
@@ -315,12 +332,30 @@ def run(ctx, prog, res):
                     cut = "before"
                 elif m.group(1) == "max" and dst == "p2.range.start" and cap == "p2.range.end":
                     cut = "after"
+                else:
+                    continue
+                # what is left of the period after the cut is kept only when it is not empty: the closure
+                # hands the period on (Some) only on the true edge of `start < end` (strict) on the cut period
+                cf = prog.fns[clo]
+                guarded = False
+                somes = [b_ for b_, st_ in cf.stmts() if st_["k"] == "assign" and st_["rv"]["k"] == "agg" and st_["rv"].get("variant") == "Some"]
+                for sbb, _b in cf.live_blocks():
+                    d = flow.bool_switch_of(cf, sbb)
+                    if not d or d["op"] != "Lt" or d["negated"]:
+                        continue
+                    if flow.shape(cf, d["a"], depth=4).endswith("p2.range.start") and flow.shape(cf, d["b"], depth=4).endswith("p2.range.end"):
+                        if somes and all(cf.dominates(d["true_bb"], b_) and not cf.dominates(d["false_bb"], b_) for b_ in somes):
+                            guarded = True
+                nonempty[cut] = guarded and kind == "filter_map"
         if cut:
             cuts_seen.add(cut)
         r10.check(cut is not None, {"collect_in_block": bb, "source": src, "stages": [k for k, _ in reversed(stages)], "every_element_cut": cut}, "C14.R10:uncut:%s" % ",".join(k for k, _ in reversed(stages)),
                   "Schedule::insert collects periods of the receiver (%s) without cutting each of them against the inserted range: a period that overlaps the inserted range and is not the one treated afterwards stays whole - overlapping periods, the earlier kind shows through" % " -> ".join(k for k, _ in reversed(stages)), lib.where_of(ins, t))
     r10.check(cuts_seen == {"before", "after"}, {"cuts": sorted(cuts_seen)}, "C14.R10:both-cuts",
               "Schedule::insert does not cut the receiver's periods on both sides of the inserted range (found: %s)" % sorted(cuts_seen), lib.where_of(ins))
-    r10.floor(3)
+    for side in sorted(cuts_seen):
+        r10.check(nonempty.get(side, False), {"cut": side, "kept_only_if": "start < end after the cut"}, "C14.R10:nonempty:%s" % side,
+                  "Schedule::insert keeps what is left of a period %s the inserted range without testing that it is not empty (`start < end`, strict, on the cut period): a period ending exactly where the inserted range ends leaves a zero-length period of its old kind behind" % side, lib.where_of(ins))
+    r10.floor(5)
 
     witness.run_doctests(ctx, prog, res, "C14.W", "outside the crate a Schedule cannot be built from raw ranges nor its vector reached; twins compile", "c14", floor=4)
